@@ -238,9 +238,40 @@ def distribute_prefix(S, cfg):
         t_out_prev = o.t_in + S.pos('prev_rise', 80.0, 220.0)
     else:
         res_prev, t_out_prev = None, None
-    with common.patched((dassh, 'Q_equals_mCdT', q_equals)):
+    interp_calls = []
+    if cfg.get('dp'):
+        # a pressure-drop limit and TWO assembly types with their own response curves (flow column 2, pressure-drop
+        # column 3, stored with descending flow): the limit of type i is read off type i's OWN curve
+        o.orifice_input['pressure_drop_limit'] = 0.5
+        curves = [np.array([[0.0, 0.0, 30.0 - 3.0 * k, (30.0 - 3.0 * k) ** 2 * 1.0e3] for k in range(8)]),
+                  np.array([[0.0, 0.0, 24.0 - 2.0 * k, (24.0 - 2.0 * k) ** 2 * 2.5e3] for k in range(8)])]
+        o._parametric['data'] = curves
+        lims = [S.pos('m_lim_type0', 15.0, 25.0), S.pos('m_lim_type1', 8.0, 15.0)]
+
+        real_np = orificing.np
+
+        class _NP:
+            def __getattr__(self, k):
+                return getattr(real_np, k)
+
+            def interp(self, x, xp, fp):
+                which = [i for i, c in enumerate(curves) if np.array_equal(np.asarray(xp, dtype=float), c[:, 3][::-1])]
+                interp_calls.append((x, np.asarray(xp, dtype=float), np.asarray(fp, dtype=float), which))
+                return lims[which[0]] if which else S.pos('m_lim_unknown', 1.0, 2.0)
+
+            def zeros(self, n, **k):
+                z = np.zeros(n)
+                return z.astype(object) if S.mode == 'sym' else z
+    with common.patched((dassh, 'Q_equals_mCdT', q_equals), *([(orificing, 'np', _NP())] if cfg.get('dp') else [])):
         loc = cut.run_prefix(self=o, res_prev=res_prev, t_out_prev=t_out_prev)
     m_total = loc['m_total']
+    if cfg.get('dp'):
+        S.holds('prefix.one_limit_per_type', len(interp_calls) == 2 and [c[3] for c in interp_calls] == [[0], [1]])
+        for i, c in enumerate(interp_calls[:2]):
+            S.holds(f'prefix.limit_read_at_the_pressure_drop_limit[{i}]', float(c[0]) == 0.5e6)
+            S.holds(f'prefix.limit_from_own_flow_column[{i}]', bool(np.array_equal(c[2], curves[i][:, 2][::-1])))
+            S.holds(f'prefix.limit_from_own_pressure_column[{i}]', bool(np.array_equal(c[1], curves[i][:, 3][::-1])))
+            S.eq(f'prefix.limit_of_type[{i}]', loc['m_lim'][i], lims[i])
     if later:
         S.eq('prefix.total_rescaled_by_temperature_rises', m_total * rise, sum(flows) * (t_out_prev - o.t_in))
         S.holds('prefix.no_first_pass_estimate', not rec)
@@ -251,7 +282,8 @@ def distribute_prefix(S, cfg):
         S.eq('prefix.first_pass_target', rec['t_out'], o.orifice_input['bulk_coolant_temp'])
     # the loop starts from equal flows that sum to the total
     S.eq('prefix.initial_flows_sum_to_total', sum(loc['m']), m_total)
-    S.holds('prefix.no_limit_without_input', loc['m_lim'] is None)
+    if not cfg.get('dp'):
+        S.holds('prefix.no_limit_without_input', loc['m_lim'] is None)
     S.eq('canary.prefix_total_is_one', m_total, 1 + 0 * m_total, canary=True)
 
 
@@ -271,7 +303,8 @@ def configs(tier):
            (distribute_body, dict(n_groups=3, labels=[0, 1, 1, 2])),
            (distribute_body, dict(n_groups=2, labels=[0, 0, 1], types=[0, 1, 0], limit=True)),
            (distribute_body, dict(n_groups=3, labels=[0, 0, 1, 1, 2], types=[1, 0, 0, 2, 1], limit=True)),
-           (distribute_prefix, dict()), (distribute_prefix, dict(later=True)),
+           (distribute_prefix, dict()), (distribute_prefix, dict(later=True)), (distribute_prefix, dict(dp=True)),
+           (distribute_prefix, dict(later=True, dp=True)),
            (distribute_suffix, dict(m=[4.0, 4.0, 2.0], dp_limit=[0, 0], ok=True)),
            (distribute_suffix, dict(m=[6.0, 6.0, 3.0], dp_limit=[0, 0], ok=False)),
            (distribute_suffix, dict(m=[4.0, 4.0, 2.0], dp_limit=[1, 1], ok=False)),
